@@ -60,8 +60,34 @@ def observer(got, pred, sp, call, sg, prog, ctx, part):
                    own=part['_own'], prefixes=part['_prefixes'])
 
     claims = {}
-    for traversal in ('recursive', 'iterative', 'children-first', 'variables-first'):
-        if traversal == 'variables-first':
+    regimes = ['recursive', 'iterative', 'children-first', 'variables-first']
+    if any(c['c'] == 'LinComb' for c in ctx.cur_calls):
+        regimes.append('coefficients-refreshed')
+    for traversal in regimes:
+        if traversal == 'coefficients-refreshed':
+            # a coefficient array is the caller's data table, referenced (not copied) by c @ v: the classification is
+            # asked while the table still holds zeros, the real coefficients are written into it afterwards (in place);
+            # what was remembered must still be an upper bound for the formula the expression now denotes
+            objs = progjudge.build_base(ctx)
+            nb = len(ctx.base_calls)
+            e = None
+            for i, c in enumerate(ctx.cur_calls):
+                e = apiexec.execute(c, objs)
+                objs[nb + i + 1] = e
+            saved = {k: a.copy() for k, a in apiexec.SHARED.items()}
+            for a in apiexec.SHARED.values():
+                a[...] = 0
+            for o in list(objs.values()):
+                if hasattr(o, 'degree') and hasattr(o, 'get_variables') and not isinstance(o, (list, tuple)):
+                    try:
+                        o.degree
+                        analysis.compute_degree(o)
+                        o.is_linear()
+                    except Exception:
+                        pass
+            for k, a in apiexec.SHARED.items():
+                a[...] = saved[k]
+        elif traversal == 'variables-first':
             # other queries come first (repr(problem), .variables, constraint.get_variables() all collect variables):
             # whatever they memoise on the nodes and on their vector operands must not change the classification
             objs = progjudge.build_base(ctx)
